@@ -61,18 +61,19 @@ Lemma nth_error_lt (A : Type) (l : list A) i a : nth_error l i = Some a -> (i < 
 Proof. intros H. apply nth_error_Some. congruence. Qed.
 
 (* ------------------------------------------------------------------ changes of one connection *)
-(* [mt] : may the client MTU change (only an Exchange MTU Request does that) *)
-Inductive conn_change (mt : bool) : conn -> conn -> Prop :=
-| cc_refl k : conn_change mt k k
+(* [mt] : may the client MTU change (only an Exchange MTU Request does that);
+   [qt] : may the notification queue change (only a Handle Value Confirmation and l2cap_output do that) *)
+Inductive conn_change (mt qt : bool) : conn -> conn -> Prop :=
+| cc_refl k : conn_change mt qt k k
 | cc_mtu k m k2 :
     mt = true -> default_att_mtu <= m ->
-    conn_change mt (mkConn m (cccd k) (encrypted k) (pairing k) (nq k)) k2 -> conn_change mt k k2
+    conn_change mt qt (mkConn m (cccd k) (encrypted k) (pairing k) (nq k)) k2 -> conn_change mt qt k k2
 | cc_cccd k pos v k2 :
-    conn_change mt (mkConn (client_mtu k) (cccd_set (cccd k) pos v) (encrypted k) (pairing k) (nq k)) k2 -> conn_change mt k k2
+    conn_change mt qt (mkConn (client_mtu k) (cccd_set (cccd k) pos v) (encrypted k) (pairing k) (nq k)) k2 -> conn_change mt qt k k2
 | cc_nq k o k2 :
-    conn_change mt (fst (nq_step k o)) k2 -> conn_change mt k k2.
+    qt = true -> conn_change mt qt (fst (nq_step k o)) k2 -> conn_change mt qt k k2.
 
-Lemma conn_change_trans mt a b d : conn_change mt a b -> conn_change mt b d -> conn_change mt a d.
+Lemma conn_change_trans mt qt a b d : conn_change mt qt a b -> conn_change mt qt b d -> conn_change mt qt a d.
 Proof.
   induction 1; intros H2; auto.
   - eapply cc_mtu; eauto.
@@ -80,7 +81,7 @@ Proof.
   - eapply cc_nq; eauto.
 Qed.
 
-Lemma conn_change_weaken mt a b : conn_change mt a b -> conn_change true a b.
+Lemma conn_change_weaken mt qt a b : conn_change mt qt a b -> conn_change true true a b.
 Proof.
   induction 1; [constructor| | |].
   - eapply cc_mtu; eauto.
@@ -88,26 +89,38 @@ Proof.
   - eapply cc_nq; eauto.
 Qed.
 
-Lemma conn_change_mtu a b : conn_change false a b -> client_mtu b = client_mtu a.
+Lemma conn_change_mtu qt a b : conn_change false qt a b -> client_mtu b = client_mtu a.
 Proof.
   induction 1; auto; try discriminate.
   - rewrite IHconn_change. unfold nq_step. destruct (NQueueModel.step (nq k) o). reflexivity.
 Qed.
 
-Definition frameb (mt : bool) (cid : nat) (st st' : srv_state) : Prop :=
-  exists k k', get_conn st cid = Some k /\ conns st' = upd (conns st) cid k' /\ conn_change mt k k'.
-Notation frame := (frameb true).
+Lemma conn_change_nq mt a b : conn_change mt false a b -> nq b = nq a.
+Proof. induction 1; auto; discriminate. Qed.
 
-Lemma frameb_weaken mt cid st st' : frameb mt cid st st' -> frame cid st st'.
+Definition frameb (mt qt : bool) (cid : nat) (st st' : srv_state) : Prop :=
+  exists k k', get_conn st cid = Some k /\ conns st' = upd (conns st) cid k' /\ conn_change mt qt k k'.
+Notation frame := (frameb true true).
+
+Lemma frameb_weaken mt qt cid st st' : frameb mt qt cid st st' -> frame cid st st'.
 Proof. intros (k & k' & G & E & C). exists k, k'. repeat split; auto. eapply conn_change_weaken; eauto. Qed.
 
-Lemma frame_same mt cid st st' k : get_conn st cid = Some k -> conns st' = conns st -> frameb mt cid st st'.
+Lemma conn_change_weaken_q mt a b : conn_change mt false a b -> forall qt, conn_change mt qt a b.
+Proof. induction 1; intros qt0; [constructor| | |discriminate].
+  - eapply cc_mtu; eauto.
+  - eapply cc_cccd; eauto.
+Qed.
+
+Lemma frameb_weaken_q mt qt cid st st' : frameb mt false cid st st' -> frameb mt qt cid st st'.
+Proof. intros (k & k' & G & E & C). exists k, k'. repeat split; auto. apply conn_change_weaken_q; auto. Qed.
+
+Lemma frame_same mt qt cid st st' k : get_conn st cid = Some k -> conns st' = conns st -> frameb mt qt cid st st'.
 Proof.
   intros G E. exists k, k. split; auto. split; [|constructor].
   rewrite E. symmetry. apply upd_nth_error_same. exact G.
 Qed.
 
-Lemma frame_trans mt cid st st1 st2 : frameb mt cid st st1 -> frameb mt cid st1 st2 -> frameb mt cid st st2.
+Lemma frame_trans mt qt cid st st1 st2 : frameb mt qt cid st st1 -> frameb mt qt cid st1 st2 -> frameb mt qt cid st st2.
 Proof.
   intros (k & k1 & G & E & C) (k1' & k2 & G1 & E1 & C1).
   unfold get_conn in *. rewrite E in G1. rewrite nth_error_upd_eq in G1 by (eapply nth_error_lt; eauto).
@@ -116,16 +129,16 @@ Proof.
   - eapply conn_change_trans; eauto.
 Qed.
 
-Lemma frame_get mt cid st st' : frameb mt cid st st' -> exists k, get_conn st cid = Some k.
+Lemma frame_get mt qt cid st st' : frameb mt qt cid st st' -> exists k, get_conn st cid = Some k.
 Proof. intros (k & _ & G & _). eauto. Qed.
 
-Lemma frame_other mt cid st st' j : frameb mt cid st st' -> j <> cid -> get_conn st' j = get_conn st j.
+Lemma frame_other mt qt cid st st' j : frameb mt qt cid st st' -> j <> cid -> get_conn st' j = get_conn st j.
 Proof.
   intros (k & k' & G & E & _) N. unfold get_conn. rewrite E. apply nth_error_upd_neq. auto.
 Qed.
 
-Lemma frame_this mt cid st st' : frameb mt cid st st' ->
-  exists k k', get_conn st cid = Some k /\ get_conn st' cid = Some k' /\ conn_change mt k k'.
+Lemma frame_this mt qt cid st st' : frameb mt qt cid st st' ->
+  exists k k', get_conn st cid = Some k /\ get_conn st' cid = Some k' /\ conn_change mt qt k k'.
 Proof.
   intros (k & k' & G & E & C). exists k, k'. repeat split; auto.
   unfold get_conn in *. rewrite E. apply nth_error_upd_eq. eapply nth_error_lt; eauto.
@@ -174,8 +187,8 @@ Proof.
     destruct (mem_write _ _ _). intros H; inv H. reflexivity.
 Qed.
 
-Lemma cccd_write_frame mt c st cid k cci off data st' r :
-  get_conn st cid = Some k -> cccd_write c st cid k cci off data = (st', r) -> frameb mt cid st st'.
+Lemma cccd_write_frame mt qt c st cid k cci off data st' r :
+  get_conn st cid = Some k -> cccd_write c st cid k cci off data = (st', r) -> frameb mt qt cid st st'.
 Proof.
   intros G. unfold cccd_write.
   destruct (2 <? off); [intros H; inv H; eapply frame_same; eauto|].
@@ -185,8 +198,8 @@ Proof.
   eapply cc_cccd. constructor.
 Qed.
 
-Lemma access_write_frame mt c st cid a off data st' r :
-  access_write c st cid a off data = Some (st', r) -> frameb mt cid st st'.
+Lemma access_write_frame mt qt c st cid a off data st' r :
+  access_write c st cid a off data = Some (st', r) -> frameb mt qt cid st st'.
 Proof.
   unfold access_write. destruct (get_conn st cid) as [k|] eqn:G; [|discriminate].
   destruct a as [s|u|s ch|s ch gci cci|s ch cci|nm|u v]; intros H.
@@ -200,7 +213,7 @@ Qed.
 (* ------------------------------------------------------------------ the handlers *)
 Lemma exchange_mtu_frame c st cid pdu b n st' r k0 :
   get_conn st cid = Some k0 ->
-  handle_exchange_mtu c st cid pdu b n = Some (st', r) -> frame cid st st'.
+  handle_exchange_mtu c st cid pdu b n = Some (st', r) -> frameb true false cid st st'.
 Proof.
   intros G. unfold handle_exchange_mtu. intros H. fmon. fbrk; fmon; [eapply frame_same; eauto|].
   fbrk; fmon; [eapply frame_same; eauto|].
@@ -269,17 +282,17 @@ Proof.
   eapply read_multiple_loop_conns in H; eauto.
 Qed.
 
-Ltac fwrite m := match goal with E : access_write _ _ _ _ _ _ = Some _ |- _ => apply (access_write_frame m) in E end.
+Ltac fwrite m q := match goal with E : access_write _ _ _ _ _ _ = Some _ |- _ => apply (access_write_frame m q) in E end.
 
-Lemma write_request_frame mt c st cid pdu b n st' r k :
-  get_conn st cid = Some k -> handle_write_request c st cid pdu b n = Some (st', r) -> frameb mt cid st st'.
+Lemma write_request_frame mt qt c st cid pdu b n st' r k :
+  get_conn st cid = Some k -> handle_write_request c st cid pdu b n = Some (st', r) -> frameb mt qt cid st st'.
 Proof.
   intros G. unfold handle_write_request. intros H. fmon. fbrk; fmon; [eapply frame_same; eauto|].
-  fchk; fmon; [eapply frame_same; eauto|]. fwrite mt. fres; fmon; auto.
+  fchk; fmon; [eapply frame_same; eauto|]. fwrite mt qt. fres; fmon; auto.
 Qed.
 
-Lemma write_command_frame mt c st cid pdu b n st' r k :
-  get_conn st cid = Some k -> handle_write_command c st cid pdu b n = Some (st', r) -> frameb mt cid st st'.
+Lemma write_command_frame mt qt c st cid pdu b n st' r k :
+  get_conn st cid = Some k -> handle_write_command c st cid pdu b n = Some (st', r) -> frameb mt qt cid st st'.
 Proof.
   intros G. unfold handle_write_command. intros H. fmon.
   eapply write_request_frame; eauto.
@@ -291,60 +304,60 @@ Proof. unfold wq_allocate. intros H. fbrk; fmon. reflexivity. Qed.
 Lemma wq_free_conns st cid : conns (wq_free st cid) = conns st.
 Proof. unfold wq_free. destruct (wq_owner st); auto. destruct (Nat.eqb n cid); auto. Qed.
 
-Lemma frame_conns_eq mt cid st s1 s2 : frameb mt cid st s1 -> conns s2 = conns s1 -> frameb mt cid st s2.
+Lemma frame_conns_eq mt qt cid st s1 s2 : frameb mt qt cid st s1 -> conns s2 = conns s1 -> frameb mt qt cid st s2.
 Proof. intros (k0 & k1 & G0 & E0 & C0) E. exists k0, k1. repeat split; auto. congruence. Qed.
 
-Lemma prepare_write_frame mt c st cid pdu b n st' r k :
-  get_conn st cid = Some k -> handle_prepare_write c st cid pdu b n = Some (st', r) -> frameb mt cid st st'.
+Lemma prepare_write_frame mt qt c st cid pdu b n st' r k :
+  get_conn st cid = Some k -> handle_prepare_write c st cid pdu b n = Some (st', r) -> frameb mt qt cid st st'.
 Proof.
   intros G. unfold handle_prepare_write. intros H. fmon.
   destruct (wqueue c) as [qs|]; fmon; [|eapply frame_same; eauto].
   fbrk; fmon; [eapply frame_same; eauto|].
   fchk; fmon; [eapply frame_same; eauto|].
   match goal with E : access_check_write _ _ _ _ = Some _ |- _ => unfold access_check_write in E end.
-  fwrite mt. fres; fmon; auto.
+  fwrite mt qt. fres; fmon; auto.
   match goal with H : match wq_allocate ?a ?b ?c ?d with Some _ => _ | None => _ end = Some _ |- _ =>
     destruct (wq_allocate a b c d) as [s2|] eqn:A end; fmon; auto.
   apply wq_allocate_conns in A. eapply frame_conns_eq; eauto.
 Qed.
 
-Lemma execute_writes_frame mt c cid : forall elems st st' f k,
-  get_conn st cid = Some k -> execute_writes c st cid elems = Some (st', f) -> frameb mt cid st st'.
+Lemma execute_writes_frame mt qt c cid : forall elems st st' f k,
+  get_conn st cid = Some k -> execute_writes c st cid elems = Some (st', f) -> frameb mt qt cid st st'.
 Proof.
   induction elems as [|e t IH]; intros st st' f k G H; simpl in H; fmon.
   - eapply frame_same; eauto.
-  - fwrite mt. match goal with F : frameb mt cid st ?s1 |- _ =>
-      destruct (frame_this _ _ _ _ F) as (k0 & k1 & _ & G1 & _);
+  - fwrite mt qt. match goal with F : frameb mt qt cid st ?s1 |- _ =>
+      destruct (frame_this _ _ _ _ _ F) as (k0 & k1 & _ & G1 & _);
       fres; fmon; auto; eapply frame_trans; [exact F|]; eapply IH; eauto end.
 Qed.
 
-Lemma execute_write_frame mt c st cid pdu b n st' r k :
-  get_conn st cid = Some k -> handle_execute_write c st cid pdu b n = Some (st', r) -> frameb mt cid st st'.
+Lemma execute_write_frame mt qt c st cid pdu b n st' r k :
+  get_conn st cid = Some k -> handle_execute_write c st cid pdu b n = Some (st', r) -> frameb mt qt cid st st'.
 Proof.
   intros G. unfold handle_execute_write. intros H. fmon.
   destruct (wqueue c) as [qs|]; fmon; [|eapply frame_same; eauto].
   fbrk; fmon; [eapply frame_same; eauto|].
   fbrk; fmon; [eapply frame_same; eauto|].
   match goal with E : (if ?x then execute_writes _ _ _ _ else _) = Some (?s1, _) |- _ =>
-    assert (F : frameb mt cid st s1) by
+    assert (F : frameb mt qt cid st s1) by
       (destruct x; [eapply execute_writes_frame; eauto|fmon; eapply frame_same; eauto]);
-    assert (F2 : frameb mt cid st (wq_free s1 cid)) by (eapply frame_conns_eq; [exact F|apply wq_free_conns])
+    assert (F2 : frameb mt qt cid st (wq_free s1 cid)) by (eapply frame_conns_eq; [exact F|apply wq_free_conns])
   end.
   match goal with H : match ?fl with Some _ => _ | None => _ end = Some _ |- _ => destruct fl as [[h code]|] end; fmon; auto.
 Qed.
 
 Lemma confirmation_frame mt c st cid pdu b n st' r k0 :
-  get_conn st cid = Some k0 -> handle_confirmation c st cid pdu b n = Some (st', r) -> frameb mt cid st st'.
+  get_conn st cid = Some k0 -> handle_confirmation c st cid pdu b n = Some (st', r) -> frameb mt true cid st st'.
 Proof.
   intros G. unfold handle_confirmation. intros H. fmon. fbrk; fmon; [eapply frame_same; eauto|].
-  eexists. eexists. split; [eassumption|]. split; [reflexivity|]. eapply cc_nq. constructor.
+  eexists. eexists. split; [eassumption|]. split; [reflexivity|]. eapply cc_nq; [reflexivity|]. constructor.
 Qed.
 
 (* ------------------------------------------------------------------ l2cap_input *)
 (* only an Exchange MTU Request (opcode 2) may change the client MTU *)
 Theorem att_input_frameb c st cid pdu n st' rs op :
   rd pdu 0 = Some op ->
-  att_input c st cid pdu n = Some (st', rs) -> frameb (op =? 2) cid st st'.
+  att_input c st cid pdu n = Some (st', rs) -> frameb (op =? 2) (op =? 30) cid st st'.
 Proof.
   intros Hop. unfold att_input. destruct (get_conn st cid) as [k|] eqn:G; [|discriminate].
   destruct (len pdu =? 0); [discriminate|].
@@ -355,7 +368,9 @@ Proof.
   match goal with H : match ?x with Some _ => _ | None => None end = Some _ |- _ => destruct x as [[s1 [b1 m]]|] eqn:EH; [|discriminate H] end.
   fbrk; fmon.
   destruct (op =? 1); [fmon; eapply frame_same; eauto|].
-  destruct (op =? 2); [eapply exchange_mtu_frame; eauto|].
+  destruct (op =? 2); [eapply frameb_weaken_q; eapply exchange_mtu_frame; eauto|].
+  destruct (op =? 30) eqn:E30.
+  { assert (op = 30) by (apply N.eqb_eq; exact E30). subst op. cbn in EH. eapply confirmation_frame; eauto. }
   repeat match goal with
          | H : (if ?x then _ else _) = Some _ |- _ => destruct x
          end; fmon; try (eapply frame_same; eauto; fail).
@@ -367,7 +382,6 @@ Proof.
   - eapply write_command_frame; eauto.
   - eapply prepare_write_frame; eauto.
   - eapply execute_write_frame; eauto.
-  - eapply confirmation_frame; eauto.
 Qed.
 
 Theorem att_input_frame c st cid pdu n st' rs :
@@ -380,24 +394,24 @@ Proof.
 Qed.
 
 (* ------------------------------------------------------------------ l2cap_output *)
-Lemma set_conn_frame mt st cid k k' : get_conn st cid = Some k -> conn_change mt k k' -> frameb mt cid st (set_conn st cid k').
+Lemma set_conn_frame mt qt st cid k k' : get_conn st cid = Some k -> conn_change mt qt k k' -> frameb mt qt cid st (set_conn st cid k').
 Proof. intros G C. exists k, k'. repeat split; auto. Qed.
 
-Lemma unsent_indication_frame mt st cid kd : (exists k, get_conn st cid = Some k) -> frameb mt cid st (unsent_indication st cid kd).
+Lemma unsent_indication_frame mt st cid kd : (exists k, get_conn st cid = Some k) -> frameb mt true cid st (unsent_indication st cid kd).
 Proof.
   intros (k & G). unfold unsent_indication. destruct kd.
   - eapply frame_same; eauto.
-  - rewrite G. apply set_conn_frame with (k := k); auto. eapply cc_nq. constructor.
+  - rewrite G. apply set_conn_frame with (k := k); auto. eapply cc_nq; [reflexivity|]. constructor.
 Qed.
 
 (* l2cap_output never changes the client MTU *)
 Theorem att_output_frameb c st cid n st' rs :
-  att_output c st cid n = Some (st', rs) -> frameb false cid st st'.
+  att_output c st cid n = Some (st', rs) -> frameb false true cid st st'.
 Proof.
   unfold att_output. destruct (get_conn st cid) as [k|] eqn:G; [|discriminate].
   destruct (nq_step k Dequeue) as [k1 r] eqn:D.
-  assert (F1 : frameb false cid st (set_conn st cid k1)).
-  { apply set_conn_frame with (k := k); auto. eapply cc_nq with (o := Dequeue). rewrite D. constructor. }
+  assert (F1 : frameb false true cid st (set_conn st cid k1)).
+  { apply set_conn_frame with (k := k); auto. eapply cc_nq with (o := Dequeue); [reflexivity|]. rewrite D. constructor. }
   assert (G1 : get_conn (set_conn st cid k1) cid = Some k1).
   { unfold get_conn, set_conn. cbn [conns]. apply nth_error_upd_eq. eapply nth_error_lt; eauto. }
   destruct r as [x|[[kd i]|]|]; try (intros H; inv H; exact F1).
@@ -406,7 +420,7 @@ Proof.
   - intros H. fmon.
     match goal with E0 : access_read _ _ _ _ _ _ _ = Some (?s2, _, _) |- _ =>
       pose proof (access_read_conns _ _ _ _ _ _ _ _ _ _ E0) as C2;
-      assert (F2 : frameb false cid st s2) by (eapply frame_conns_eq; [exact F1|exact C2]);
+      assert (F2 : frameb false true cid st s2) by (eapply frame_conns_eq; [exact F1|exact C2]);
       assert (G2 : get_conn s2 cid = Some k1) by (unfold get_conn in *; rewrite C2; exact G1)
     end.
     fres; fmon; auto; (eapply frame_trans; [exact F2|]; apply unsent_indication_frame; eauto).
@@ -450,15 +464,15 @@ Section Inv.
 
   Definition inv_st (st : srv_state) : Prop := forall j k, get_conn st j = Some k -> I k.
 
-  Lemma conn_change_inv k k' : conn_change true k k' -> I k -> I k'.
+  Lemma conn_change_inv k k' : conn_change true true k k' -> I k -> I k'.
   Proof. induction 1; intros HI; auto. Qed.
 
   Lemma frame_inv cid st st' : frame cid st st' -> inv_st st -> inv_st st'.
   Proof.
     intros F H j k G. destruct (Nat.eq_dec j cid) as [->|N].
-    - destruct (frame_this _ _ _ _ F) as (k0 & k1 & G0 & G1 & C). rewrite G1 in G. inv G.
+    - destruct (frame_this _ _ _ _ _ F) as (k0 & k1 & G0 & G1 & C). rewrite G1 in G. inv G.
       eapply conn_change_inv; eauto.
-    - rewrite (frame_other _ _ _ _ _ F N) in G. eauto.
+    - rewrite (frame_other _ _ _ _ _ _ F N) in G. eauto.
   Qed.
 
   Lemma set_conn_inv st cid k : inv_st st -> I k -> inv_st (set_conn st cid k).
